@@ -60,7 +60,8 @@ def build_request(obs, mn):
                 req['indices'].append([[i['implied'], names(mibgen.jname(i['name']))] for i in d['index']])
                 keys['indices'].append(jn)
         if d['kind'] == 'moduleCompliance':
-            req['compliances'].append([[None, [names(mibgen.jname(x['name'])) for x in d['mandatory'] + d['conditional']]]])
+            req['compliances'].append([[None if cl['module'] is None else mods(cl['module']),
+                                        [names(mibgen.jname(x['name'])) for x in cl['mandatory'] + cl['conditional']]] for cl in d['clauses']])
             keys['compliances'].append(jn)
     return req, keys, names, mods
 
@@ -115,7 +116,7 @@ def check_set(ctx, obs, reqs, metas):
                     if gotp != [[o['module'], o['object']] for o in want]:
                         fail('pysnmp-objects', '%s::%s setObjects%r, written %r' % (mn, jn, gotp, want))
             if d['kind'] == 'moduleCompliance':
-                want = [{'object': mibgen.jname(x['name']), 'module': mn} for x in d['mandatory'] + d['conditional']]
+                want = [{'object': mibgen.jname(x['name']), 'module': cl['module'] or mn} for cl in d['clauses'] for x in cl['mandatory'] + cl['conditional']]
                 got = [{'object': o.get('object'), 'module': o.get('module')} for o in rec.get('modulecompliance', [])]
                 if got != want:
                     fail('compliance', '%s::%s groups emitted as %r, written %r' % (mn, jn, got, want))
